@@ -52,6 +52,15 @@ PROPS = {
         "assumptions": ["identifiers are valid UTF-8 (Rust &str); the byte-level reading of the regexes is exact because every literal and class is ASCII"],
         "trusted_base": [],
     },
+    "C09": {
+        "level_text": "Theorems in Coq about an executable model of the status-list state machine (create / update with the issued-revoked filters against the old list / timestamp-only update) over the accumulator algebra of the CL crate (free abelian group on tail exponents, index i <-> exponent N+1-i): for EVERY history, every entry equals the pointwise application of the requested sets in order (no-op and out-of-range requests ignored), the accumulator equals a fixed function of the entries plus a constant of registry size and issuance mode (hence path independence), timestamps change only when supplied, and a credential issued at index i embeds the accumulator of the matching issue update (issuance refused exactly outside 1..N-1). Tied to the code by running real registries (N=3 exhaustive single updates and update pairs over all subsets incl. index 0 and out-of-range, random long histories on N=5,8,40, both issuance modes, JSON hops, real credential issuance) and checking bits, timestamps, input immutability and the partition of all observed accumulators into equality classes (crate ==) against the model's group elements.",
+        "level_note": "Trusted: Coq kernel, extraction, harness/driver glue. Modelled not verified: issuer.rs / rev_status_list.rs update logic and the CL crate's accumulator arithmetic (represented in the free abelian group on exponents; equality there implies equality in the pairing group, the converse is checked on every observed pair by the crate's ==). `update_pure` (input list unchanged) is trivial in a functional model and is checked on the implementation only.",
+        "theorems": ["C09_bits_spec", "C09_acc_invariant", "C09_acc_path_independent", "C09_ts_spec", "C09_touch_only_ts", "C09_issue_embeds_acc",
+                     "C09_issue_refused_iff", "C09_transfer", "C09_transfer_update", "C09_transfer_issue", "C09_transfer_classes"],
+        "rule": "one case = one history (registry size, mode, initial timestamp, list of operations: update with optional issued/revoked sets and timestamp, timestamp-only update, JSON hop, credential issuance at an index) with the implementation's observable after every step; non-trivial = the history contains a non-empty update or an issuance; distinct = distinct abstract case",
+        "assumptions": ["group elements are compared only with the CL crate's PartialEq (their serial forms are not canonical)"],
+        "trusted_base": [],
+    },
 }
 
 NOTES = "MANIFEST.json is generated by bin/mkmanifest from bin/props.py; see DESIGN.md"
